@@ -182,6 +182,8 @@ class Universe:
             "auth": C.is_authentic(ev),
             "exp": exp,
         }
+        if d.get("dub"):
+            self.abs[sym]["dub"] = True
 
     # ---- concrete -> symbols
     def sym_event(self, ev):
